@@ -36,7 +36,7 @@ NewLink == [ech |-> -1, pch |-> -1, eh |-> -1, ph |-> -1, name |-> "", eutSender
             snd |-> 2, rcv |-> 0, mmsP |-> -1,
             \* sender role (EUT sends)
             idc |-> 0, dcS |-> 0, limit |-> -1, drainOwed |-> FALSE, echoOwed |-> FALSE, inDel |-> FALSE, curDid |-> -1,
-            sendsIssued |-> 0, delsDone |-> 0, blockedBy |-> "none",
+            sendsIssued |-> 0, delsDone |-> 0, blockedBy |-> "none", lastM |-> -1, cancels |-> 0,
             \* receiver role (EUT receives)
             dcR |-> 0, dcGot |-> 0, lcR |-> 0, limitR |-> 0, limitMax |-> 0, idcP |-> 0, accepted |-> 0, broken |-> FALSE, aborts |-> 0, cfgActive |-> FALSE, creditMode |-> -2, autoAcc |-> FALSE, expectLc |-> -1, held |-> 0, pInDel |-> FALSE,
             inq |-> <<>>,          \* incoming deliveries not yet handed to the application
@@ -158,7 +158,9 @@ H_ETransfer(s, r, l) ==
   IF k = 0 THEN R([s EXCEPT !.ss[i].framesOut = @ + 1], Fail("C13_NothingAfterDetach", l, "transfer")) ELSE
   LET x == s.ss[i] y == s.ls[k]
       id == x.initOut + x.framesOut
-      first == ~y.inDel
+      \* a frame with another delivery-id than the delivery in progress starts a new delivery and leaves the old one unfinished
+      abandoned == y.inDel /\ f.did >= 0 /\ f.did # y.curDid
+      first == ~y.inDel \/ abandoned
       strictOK == x.pBegun /\ id >= x.peerNII /\ id - x.peerNII < x.peerWin
       \* deviation model (known finding): the session counts one transfer per link-level transfer; the link splits a
       \* delivery only at multiples of the peer's max-message-size, every other frame boundary is made below the session
@@ -168,16 +170,19 @@ H_ETransfer(s, r, l) ==
                       !.devWin = IF unit THEN Max(0, @ - 1) ELSE @]
       qi == IF first THEN FirstIdx(y.sendq, LAMBDA q : q.m = r.pl.m /\ q.did = -1) ELSE 0
       y2 == [y EXCEPT !.inDel = f.more, !.curDid = IF first THEN f.did ELSE @, !.dcS = IF first THEN @ + 1 ELSE @,
-                      !.delsDone = IF f.more THEN @ ELSE @ + 1,
+                      !.delsDone = IF f.more THEN @ ELSE @ + 1, !.lastM = IF first THEN r.pl.m ELSE @,
                       !.sendq = IF qi > 0 THEN [@ EXCEPT ![qi].did = f.did, ![qi].presettled = (f.settled = "t")] ELSE @]
   IN R(SetL(SetS(s, i, x2), k, y2),
          Chk("C07_WindowSafety", strictOK, l, IF devOK THEN "dev_ok" ELSE "dev_bad")
        + Chk("C11_DeliveryIdIncreasing", ~first \/ (f.did >= 0 /\ f.did > x.lastDid), l, "")
        + Chk("C11_ContinuationId", first \/ f.did = -1 \/ f.did = y.curDid, l, "")
+       + Chk(IF y.cancels > 0 THEN "C16_NeverPartial" ELSE "C11_DeliveryAbandoned", ~abandoned, l, "")
        + Chk("C08_SenderRole", y.eutSender, l, "")
        + Chk("C08_WithinCredit", ~first \/ (y.limit >= 0 /\ y.dcS < y.limit), l, "")
        + Chk("C01_PayloadContinuity", r.pl.ok, l, "")
-       + Chk("C07_Fifo", r.pl.ok, l, ""))
+       \* deliveries leave in the order the application submitted them, none twice (message numbers grow per link)
+       + Chk("C07_Fifo", r.pl.ok /\ (~first \/ r.pl.m > y.lastM), l, "")
+       + Chk("C16_LaterIntact", y.cancels = 0 \/ (r.pl.ok /\ (~first \/ r.pl.m > y.lastM)), l, ""))
 
 H_EFlow(s, r, l) ==
   LET f == r.f i == SessByE(s, r.ch) IN
@@ -474,7 +479,10 @@ H_ApiRet(s, r, l) ==
                 IF q.presettled THEN "presettled" ELSE IF q.outcome = "none" THEN "early" ELSE "wrong"))
   ELSE IF r.op \in {"send", "send_batchable"} /\ ~r.res.ok THEN
        LET k == LinkByName(s, r.lname, TRUE) IN
-       IF k = 0 \/ s.ls[k].sendsIssued <= s.ls[k].delsDone THEN R(s, 0) ELSE R(SetL(s, k, [s.ls[k] EXCEPT !.sendsIssued = @ - 1]), 0)
+       IF k = 0 THEN R(s, 0) ELSE
+       \* a cancelled send may or may not have put its message on the wire: it is no longer owed
+       R(SetL(s, k, [s.ls[k] EXCEPT !.sendsIssued = IF @ > s.ls[k].delsDone /\ (~s.ls[k].inDel \/ r.res.class = "Cancelled") THEN @ - 1 ELSE @,
+                                    !.cancels = IF r.res.class = "Cancelled" THEN @ + 1 ELSE @]), 0)
   ELSE R(s, 0)
 
 \* ---------------------------------------------------------------- failures propagate (C14)
@@ -566,6 +574,9 @@ Step(s, r, l) ==
       [] r.ev = "Quiesce" -> H_Quiesce(s, r, l)
       [] r.ev = "End" -> R(s, Chk("C15_IllegalHandled", ~s.illegal \/ s.shutAfterIllegal, l, s.illegalWhat) + Chk("C15_NoHang", Len(r.pending) = 0 \/ ~(s.peof \/ s.pclose \/ s.eeof), l, "") + Chk("C15_NoPanic", r.panics = s.panics0 \/ s.panics0 < 0, l, "end")
                               + PendingClauses(s, r, l)
+                              \* cancellation never leaves half a delivery on the wire nor a complete delivery undelivered
+                              + Chk("C16_NeverPartial", ~ConnUp(s) \/ \A k \in DOMAIN s.ls : ~(s.ls[k].eutSender /\ LinkLiveE(s.ls[k]) /\ ~s.ls[k].pDet /\ s.ls[k].inDel /\ s.ls[k].cancels > 0), l, "")
+                              + Chk("C16_NoLoss", ~ConnUp(s) \/ \A k \in DOMAIN s.ls : ~(~s.ls[k].eutSender /\ LinkLiveE(s.ls[k]) /\ ~s.ls[k].pDet /\ ~s.ls[k].broken /\ \E n \in DOMAIN s.ls[k].inq : Eligible(s.ls[k].inq[n])), l, "")
                               + Chk("C14_TasksEnd", ~ConnDead(s) \/ s.lastAlive <= Len(r.pending), l, ""))
       [] r.ev = "Spin" -> R(s, Fail("C15_Quiesces", l, "spin"))
       [] r.ev = "Hook" -> R([s EXCEPT !.hook = (r.op = "arm")], 0)
